@@ -289,3 +289,460 @@ Proof.
     + rewrite <- (time_body_len s n Hn). apply out_str_legacy.
       rewrite time_body_len by assumption. apply time_len_lt; assumption.
 Qed.
+
+(* ================================================================== *)
+(* IN: every permitted serialisation decodes to the data it denotes *)
+
+Definition hashable_s (s : sval) : bool :=
+  match s with SArr _ | SMap _ | SExt _ _ => false | _ => true end.
+
+(* what the library documents it cannot take into an interface{}: map keys that Go cannot hash
+   (arrays, maps, extensions), application use of the reserved extension type -1, and -- the
+   known finding F07-1n -- SignedInteger with an unsigned value above MaxInt64 *)
+Fixpoint lib_supports (D : dopts) (s : sval) : Prop :=
+  match s with
+  | SInt z => ~ (d_signedinteger D = true /\ (2 ^ 63 <= z)%Z)
+  | SExt ty _ => ty <> (-1)%Z
+  | SArr l => (fix go l := match l with [] => True | x :: r => lib_supports D x /\ go r end) l
+  | SMap l => (fix go l := match l with
+                           | [] => True
+                           | kv :: r => lib_supports D (fst kv) /\ hashable_s (fst kv) = true /\ lib_supports D (snd kv) /\ go r
+                           end) l
+  | _ => True
+  end.
+
+(* the decoded item carries the data of the spec value *)
+Fixpoint agrees (D : dopts) (it : item) (s : sval) {struct s} : Prop :=
+  match s with
+  | SNil => it = INil
+  | SBool b => it = IBool b
+  | SInt z => it = IInt z \/ ((0 <= z)%Z /\ it = IUint (Z.to_N z))
+  | SF32 b => it = IF64 (f32_to_f64 b)
+  | SF64 b => it = IF64 b
+  | SStr s => it = mkraw (d_writeext D || d_rawtostring D) s
+  | SBin s => it = mkraw (d_rawtostring D) s
+  | SArr l =>
+      exists l', it = IArr l' /\
+        (fix go (l : list sval) (l' : list item) {struct l} : Prop :=
+           match l, l' with
+           | [], [] => True
+           | x :: r, x' :: r' => agrees D x' x /\ go r r'
+           | _, _ => False
+           end) l l'
+  | SMap l =>
+      exists l', it = IMap l' /\
+        (fix go (l : list (sval * sval)) (l' : list (item * item)) {struct l} : Prop :=
+           match l, l' with
+           | [], [] => True
+           | kv :: r, kv' :: r' =>
+               (exists k0, agrees D k0 (fst kv) /\ fst kv' = key_fix k0) /\ agrees D (snd kv') (snd kv) /\ go r r'
+           | _, _ => False
+           end) l l'
+  | SExt ty data => it = IExt (tc 8 ty) data
+  | STime sec nsec => it = ITime sec nsec
+  end.
+
+Lemma agrees_hashable : forall D it s, agrees D it s -> hashable_s s = true -> hashable (key_fix it) = true.
+Proof.
+  intros D it s H Hh. destruct s; try discriminate; cbn [agrees] in H.
+  - subst; reflexivity.
+  - subst; reflexivity.
+  - destruct H as [->|[_ ->]]; reflexivity.
+  - subst; reflexivity.
+  - subst; reflexivity.
+  - subst. unfold mkraw. destruct (_ || _); reflexivity.
+  - subst. unfold mkraw. destruct (d_rawtostring D); reflexivity.
+  - subst; reflexivity.
+Qed.
+
+Lemma ser_nonempty : forall s w, ser s w -> (1 <= length w)%nat.
+Proof.
+  intros s w H. destruct s; cbn [ser] in H.
+  - subst; cbn; lia.
+  - subst; cbn; lia.
+  - unfold ser_int in H.
+    repeat (destruct H as [[_ ->]|H]; [cbn [length]; lia|]). destruct H as [_ ->]. cbn [length]; lia.
+  - destruct H as [_ ->]. cbn [length]; lia.
+  - destruct H as [_ ->]. cbn [length]; lia.
+  - unfold ser_str in H. repeat (destruct H as [[_ ->]|H]; [cbn [length]; lia|]). destruct H as [_ ->]. cbn [length]; lia.
+  - unfold ser_bin in H. repeat (destruct H as [[_ ->]|H]; [cbn [length]; lia|]). destruct H as [_ ->]. cbn [length]; lia.
+  - destruct H as [h [ws [Hh [-> _]]]]. rewrite app_length.
+    unfold arr_head in Hh. destruct Hh as [[_ ->]|[[_ ->]|[_ ->]]]; cbn [length]; lia.
+  - destruct H as [h [ws [Hh [-> _]]]]. rewrite app_length.
+    unfold map_head in Hh. destruct Hh as [[_ ->]|[[_ ->]|[_ ->]]]; cbn [length]; lia.
+  - unfold ser_ext in H. destruct H as [_ H].
+    repeat (destruct H as [[_ ->]|H]; [cbn [length app]; lia|]). destruct H as [_ ->]. cbn [length]; lia.
+  - unfold ser_time in H. destruct H as [[_ [_ ->]]|[[_ [_ ->]]|[_ [_ ->]]]]; cbn [length app]; lia.
+Qed.
+
+(* descriptor classes of the spec's fix bytes *)
+Lemma fix_add : forall base cut d,
+  forallb (fun n => desc_eqb (classify (base + n)) d) (map N.of_nat (seq 0 cut)) = true ->
+  forall n, n < N.of_nat cut -> classify (base + n) = d.
+Proof.
+  intros base cut d H n Hn. pose proof (N_forall_lt _ _ H n Hn) as P. cbv beta in P.
+  apply desc_eqb_eq. assumption.
+Qed.
+
+Lemma fix_xor : forall base cut,
+  forallb (fun n => N.lxor base (base + n) =? n) (map N.of_nat (seq 0 cut)) = true ->
+  forall n, n < N.of_nat cut -> N.lxor base (base + n) = n.
+Proof. intros base cut H n Hn. pose proof (N_forall_lt _ _ H n Hn) as P. cbv beta in P. lia. Qed.
+
+Lemma rd_len_be : forall fm c k n r, (1 <= k)%nat -> n < 256 ^ N.of_nat k ->
+  rd_len fm c k (be_put k n ++ r) = Ok (n, r).
+Proof.
+  intros fm c k n r Hk Hn. destruct k as [|k]; [lia|]. cbn [rd_len].
+  rewrite rd_nk_put. cbn [bind]. rewrite be_get_put by assumption. reflexivity.
+Qed.
+
+Section In.
+  Variable D : dopts.
+  Variable cap : N.
+  Hypothesis Hcap : goslice cap.
+
+  Definition in_ok (s : sval) : Prop :=
+    forall w, ser s w -> lib_supports D s -> forall f d rest,
+    (2 * length w + 1 <= f)%nat -> (d + Z.of_nat (sdepth s) < maxdepth D)%Z ->
+    exists it, decF D cap f d (w ++ rest) = Ok (it, rest) /\ agrees D it s.
+
+  (* a string-family value behind any head that announces its length *)
+  Lemma in_rawbytes : forall c w' lb s f d rest (fixmin : N) (mk : list N -> item),
+    len s < 2 ^ 32 ->
+    (forall r, rd_len fixmin c w' (lb ++ r) = Ok (len s, r)) ->
+    (dec_body D cap f d c (lb ++ s ++ rest) =
+       do (n, r1) <- rd_len fixmin c w' (lb ++ s ++ rest) ;;
+       do (x, r2) <- rd_readx cap n r1 ;; Ok (mk x, r2)) ->
+    decF D cap (S f) d (c :: lb ++ s ++ rest) = Ok (mk s, rest).
+  Proof.
+    intros c w' lb s f d rest fixmin mk Hl Hrd Hbody.
+    rewrite decF_S, Hbody, Hrd. cbn [bind].
+    rewrite rd_readx_app by (unfold goslice in Hcap; change (2 ^ 32) with 4294967296 in Hl; lia). reflexivity.
+  Qed.
+
+  Lemma in_str : forall s w f d rest, ser_str s w ->
+    decF D cap (S f) d (w ++ rest) = Ok (mkraw (d_writeext D || d_rawtostring D) s, rest).
+  Proof.
+    intros s w f d rest H. unfold ser_str in H. rewrite slen_len in H.
+    destruct H as [[Hn ->]|[[Hn ->]|[[Hn ->]|[Hn ->]]]]; rewrite ?sbe_be; cbn [app]; rewrite <- ?app_assoc.
+    - change (0xa0 + len s :: s ++ rest) with (0xa0 + len s :: [] ++ s ++ rest).
+      apply (in_rawbytes _ 0%nat [] s f d rest bFixStrMin); [change (2 ^ 32) with 4294967296; lia| |].
+      + intros r. cbn [rd_len app]. rewrite (fix_xor 0xa0 32); [reflexivity|vm_compute; reflexivity|lia].
+      + unfold dec_body. rewrite (fix_add 0xa0 32 (DStr 0)); [reflexivity|vm_compute; reflexivity|lia].
+    - apply (in_rawbytes _ 1%nat (be_put 1 (len s)) s f d rest bFixStrMin); [change (2 ^ 32) with 4294967296; change (2 ^ 8) with 256 in Hn; lia| |reflexivity].
+      intros r. apply rd_len_be; [lia|exact Hn].
+    - apply (in_rawbytes _ 2%nat (be_put 2 (len s)) s f d rest bFixStrMin); [change (2 ^ 32) with 4294967296; change (2 ^ 16) with 65536 in Hn; lia| |reflexivity].
+      intros r. apply rd_len_be; [lia|exact Hn].
+    - apply (in_rawbytes _ 4%nat (be_put 4 (len s)) s f d rest bFixStrMin); [assumption| |reflexivity].
+      intros r. apply rd_len_be; [lia|exact Hn].
+  Qed.
+
+  Lemma in_bin : forall s w f d rest, ser_bin s w ->
+    decF D cap (S f) d (w ++ rest) = Ok (mkraw (d_rawtostring D) s, rest).
+  Proof.
+    intros s w f d rest H. unfold ser_bin in H. rewrite slen_len in H.
+    destruct H as [[Hn ->]|[[Hn ->]|[Hn ->]]]; rewrite ?sbe_be; cbn [app]; rewrite <- ?app_assoc.
+    - apply (in_rawbytes _ 1%nat (be_put 1 (len s)) s f d rest 0); [change (2 ^ 32) with 4294967296; change (2 ^ 8) with 256 in Hn; lia| |reflexivity].
+      intros r. apply rd_len_be; [lia|exact Hn].
+    - apply (in_rawbytes _ 2%nat (be_put 2 (len s)) s f d rest 0); [change (2 ^ 32) with 4294967296; change (2 ^ 16) with 65536 in Hn; lia| |reflexivity].
+      intros r. apply rd_len_be; [lia|exact Hn].
+    - apply (in_rawbytes _ 4%nat (be_put 4 (len s)) s f d rest 0); [assumption| |reflexivity].
+      intros r. apply rd_len_be; [lia|exact Hn].
+  Qed.
+
+  Lemma in_int : forall z w f d rest, ser_int z w -> ~ (d_signedinteger D = true /\ (2 ^ 63 <= z)%Z) ->
+    exists it, decF D cap (S f) d (w ++ rest) = Ok (it, rest) /\ (it = IInt z \/ ((0 <= z)%Z /\ it = IUint (Z.to_N z))).
+  Proof.
+    intros z w f d rest H Hg. unfold ser_int in H.
+    assert (U : forall k c, classify c = DUint k -> (0 <= z)%Z -> Z.to_N z < 256 ^ N.of_nat k ->
+                (k = 8%nat \/ (z < 2 ^ 63)%Z) ->
+                exists it, decF D cap (S f) d ((c :: sbe k (Z.to_N z)) ++ rest) = Ok (it, rest) /\
+                           (it = IInt z \/ ((0 <= z)%Z /\ it = IUint (Z.to_N z)))).
+    { intros k c Hc Hz Hlt Hk. rewrite sbe_be. rewrite <- app_comm_cons. rewrite (dec_uint_k D cap k c) by assumption.
+      eexists. split; [reflexivity|]. unfold mkuint. destruct (d_signedinteger D) eqn:Es; [|right; split; [assumption|reflexivity]].
+      left. f_equal. assert (Hz63 : (z < 2 ^ 63)%Z).
+      { destruct (Z.ltb_spec z (2 ^ 63)) as [Hlt63|Hge63]; [assumption|]. exfalso. apply Hg. split; [reflexivity|assumption]. }
+      change (2 ^ 63)%Z with 9223372036854775808%Z in Hz63.
+      unfold signed. change (2 ^ (64 - 1)) with 9223372036854775808.
+      destruct (N.ltb_spec (Z.to_N z) 9223372036854775808); lia. }
+    assert (I : forall k c, classify c = DInt k -> forall v, v < 256 ^ N.of_nat k -> signed (8 * N.of_nat k) v = z ->
+                exists it, decF D cap (S f) d ((c :: sbe k v) ++ rest) = Ok (it, rest) /\
+                           (it = IInt z \/ ((0 <= z)%Z /\ it = IUint (Z.to_N z)))).
+    { intros k c Hc v Hv Hs. rewrite sbe_be. rewrite <- app_comm_cons. rewrite (dec_int_k D cap k c) by assumption.
+      eexists. split; [reflexivity|]. left. rewrite Hs. reflexivity. }
+    destruct H as [[Hz ->]|H].
+    { cbn [app]. rewrite decF_S. unfold dec_body. destruct (classify_posfix (Z.to_N z) ltac:(lia)) as [E1 E2].
+      rewrite E1, E2. rewrite Z2N.id by lia. eexists. split; [reflexivity|left; reflexivity]. }
+    destruct H as [[Hz ->]|H].
+    { cbn [app]. rewrite decF_S. unfold dec_body.
+      replace (Z.to_N (z + 256)) with (wrapZ 8 z) by (unfold wrapZ; change (2 ^ Z.of_N 8)%Z with 256%Z; lia).
+      destruct (classify_negfix z ltac:(lia)) as [E1 E2]. rewrite E1, E2. eexists. split; [reflexivity|left; reflexivity]. }
+    destruct H as [[Hz ->]|H]. { change (2 ^ 8)%Z with 256%Z in Hz. apply (U 1%nat); [reflexivity|lia|change (256 ^ N.of_nat 1) with 256; lia|right; change (2 ^ 63)%Z with 9223372036854775808%Z; lia]. }
+    destruct H as [[Hz ->]|H]. { change (2 ^ 16)%Z with 65536%Z in Hz. apply (U 2%nat); [reflexivity|lia|change (256 ^ N.of_nat 2) with 65536; lia|right; change (2 ^ 63)%Z with 9223372036854775808%Z; lia]. }
+    destruct H as [[Hz ->]|H]. { change (2 ^ 32)%Z with 4294967296%Z in Hz. apply (U 4%nat); [reflexivity|lia|change (256 ^ N.of_nat 4) with 4294967296; lia|right; change (2 ^ 63)%Z with 9223372036854775808%Z; lia]. }
+    destruct H as [[Hz ->]|H]. { change (2 ^ 64)%Z with 18446744073709551616%Z in Hz. apply (U 8%nat); [reflexivity|lia|change (256 ^ N.of_nat 8) with 18446744073709551616; lia|left; reflexivity]. }
+    destruct H as [[Hz ->]|H].
+    { change (2 ^ 7)%Z with 128%Z in Hz. rewrite tc_wrapZ_8 by lia.
+      apply (I 1%nat); [reflexivity|apply (wrapZ_lt 8)|change (8 * N.of_nat 1) with 8; apply signed_wrapZ_8; lia]. }
+    destruct H as [[Hz ->]|H].
+    { change (2 ^ 15)%Z with 32768%Z in Hz. rewrite tc_wrapZ_16 by lia.
+      apply (I 2%nat); [reflexivity|apply (wrapZ_lt 16)|change (8 * N.of_nat 2) with 16; apply signed_wrapZ_16; lia]. }
+    destruct H as [[Hz ->]|H].
+    { change (2 ^ 31)%Z with 2147483648%Z in Hz. rewrite tc_wrapZ_32 by lia.
+      apply (I 4%nat); [reflexivity|apply (wrapZ_lt 32)|change (8 * N.of_nat 4) with 32; apply signed_wrapZ_32; lia]. }
+    destruct H as [Hz ->].
+    change (2 ^ 63)%Z with 9223372036854775808%Z in Hz. rewrite tc_wrapZ_64 by lia.
+    apply (I 8%nat); [reflexivity|apply (wrapZ_lt 64)|change (8 * N.of_nat 8) with 64; apply signed_wrapZ_64; lia].
+  Qed.
+
+  (* extension heads: all eight forms lead to ext_body with the data length *)
+  Lemma in_ext_head : forall ty data w f d rest, ser_ext ty data w ->
+    decF D cap (S f) d (w ++ rest) = ext_body cap (len data) (tc 8 ty :: data ++ rest) /\ len data < 2 ^ 32.
+  Proof.
+    intros ty data w f d rest H. unfold ser_ext in H. rewrite slen_len in H. destruct H as [_ H].
+    assert (W : forall k c, classify c = DExt k -> (1 <= k)%nat -> len data < 256 ^ N.of_nat k ->
+              decF D cap (S f) d ((c :: sbe k (len data) ++ [tc 8 ty] ++ data) ++ rest)
+              = ext_body cap (len data) (tc 8 ty :: data ++ rest)).
+    { intros k c Hc Hk Hlt. rewrite sbe_be. rewrite <- app_comm_cons. rewrite <- !app_assoc.
+      rewrite decF_S. unfold dec_body. rewrite Hc. rewrite rd_len_be by assumption. reflexivity. }
+    destruct H as [[Hn ->]|H]. { rewrite Hn. split; [cbn [app]; rewrite decF_S; reflexivity|reflexivity]. }
+    destruct H as [[Hn ->]|H]. { rewrite Hn. split; [cbn [app]; rewrite decF_S; reflexivity|reflexivity]. }
+    destruct H as [[Hn ->]|H]. { rewrite Hn. split; [cbn [app]; rewrite decF_S; reflexivity|reflexivity]. }
+    destruct H as [[Hn ->]|H]. { rewrite Hn. split; [cbn [app]; rewrite decF_S; reflexivity|reflexivity]. }
+    destruct H as [[Hn ->]|H]. { rewrite Hn. split; [cbn [app]; rewrite decF_S; reflexivity|reflexivity]. }
+    destruct H as [[Hn ->]|H]. { split; [apply (W 1%nat); [reflexivity|lia|exact Hn]|change (2 ^ 8) with 256 in Hn; change (2 ^ 32) with 4294967296; lia]. }
+    destruct H as [[Hn ->]|H]. { split; [apply (W 2%nat); [reflexivity|lia|exact Hn]|change (2 ^ 16) with 65536 in Hn; change (2 ^ 32) with 4294967296; lia]. }
+    destruct H as [Hn ->]. split; [apply (W 4%nat); [reflexivity|lia|exact Hn]|assumption].
+  Qed.
+
+  Lemma tc8_range : forall ty, (-128 <= ty <= 127)%Z -> ty <> (-1)%Z -> tc 8 ty <> 255.
+  Proof. intros ty H Hn. unfold tc. change (2 ^ 8)%Z with 256%Z. destruct (Z.ltb_spec ty 0); lia. Qed.
+
+  Lemma in_time : forall sec nsec w f d rest, ser_time sec nsec w ->
+    decF D cap (S f) d (w ++ rest) = Ok (ITime sec nsec, rest).
+  Proof.
+    intros sec nsec w f d rest H. unfold ser_time in H.
+    destruct H as [[Hn [Hs ->]]|[[Hn [Hs ->]]|[Hn [Hs ->]]]]; rewrite ?sbe_be; cbn [app]; rewrite decF_S; unfold dec_body.
+    - change (classify 0xd6) with (DFixExt 4). unfold ext_body. cbn [rd_n1 bind].
+      change (0xff =? bTimeExtTagU) with true. cbv iota. unfold dec_time. cbn [N.eqb Pos.eqb].
+      rewrite rd_nk_put. cbn [bind]. change (2 ^ 32)%Z with 4294967296%Z in Hs.
+      rewrite be_get_put by (change (256 ^ N.of_nat 4) with 4294967296; lia).
+      rewrite Z2N.id by lia. subst nsec.
+      rewrite unix_time_id by (change (2 ^ 63)%Z with 9223372036854775808%Z; lia). reflexivity.
+    - change (classify 0xd7) with (DFixExt 8). unfold ext_body. cbn [rd_n1 bind].
+      change (0xff =? bTimeExtTagU) with true. cbv iota. unfold dec_time. cbn [N.eqb Pos.eqb].
+      rewrite rd_nk_put. cbn [bind]. change (2 ^ 34)%Z with 17179869184%Z in Hs. change (2 ^ 34) with 17179869184.
+      rewrite be_get_put by (change (256 ^ N.of_nat 8) with 18446744073709551616; lia).
+      change 17179869183 with (N.ones 34). rewrite N.land_ones. rewrite N.shiftr_div_pow2.
+      change (2 ^ 34) with 17179869184.
+      replace ((nsec * 17179869184 + Z.to_N sec) mod 17179869184) with (Z.to_N sec) by lia.
+      replace ((nsec * 17179869184 + Z.to_N sec) / 17179869184) with nsec by lia.
+      rewrite Z2N.id by lia.
+      rewrite unix_time_id by (change (2 ^ 63)%Z with 9223372036854775808%Z; lia). reflexivity.
+    - change (classify 0xc7) with (DExt 1). cbn [rd_len].
+      rewrite <- app_assoc.
+      change (rd_nk 1 (12 :: 255 :: be_put 4 nsec ++ be_put 8 (tc 64 sec) ++ rest))
+        with (rd_nk 1 ([12] ++ 255 :: be_put 4 nsec ++ be_put 8 (tc 64 sec) ++ rest)).
+      rewrite rd_nk_app by reflexivity. cbn [bind]. change (be_get [12]) with 12.
+      unfold ext_body. cbn [rd_n1 bind]. change (255 =? bTimeExtTagU) with true. cbv iota.
+      unfold dec_time. cbn [N.eqb Pos.eqb]. rewrite rd_nk_put. cbn [bind]. rewrite rd_nk_put. cbn [bind].
+      change (2 ^ 63)%Z with 9223372036854775808%Z in Hs. rewrite tc_wrapZ_64 by lia.
+      rewrite (be_get_put 4) by (change (256 ^ N.of_nat 4) with 4294967296; lia).
+      rewrite (be_get_put 8) by (change (256 ^ N.of_nat 8) with (2 ^ 64); apply wrapZ_lt).
+      rewrite signed_wrapZ_64 by lia.
+      rewrite unix_time_id by (change (2 ^ 63)%Z with 9223372036854775808%Z; lia). reflexivity.
+  Qed.
+End In.
+
+Section InMain.
+  Variable D : dopts.
+  Variable cap : N.
+  Hypothesis Hcap : goslice cap.
+
+  Definition sldepth (l : list sval) : nat := fold_right (fun x m => Nat.max (sdepth x) m) 0%nat l.
+  Definition spdepth (l : list (sval * sval)) : nat :=
+    fold_right (fun kv m => Nat.max (Nat.max (sdepth (fst kv)) (sdepth (snd kv))) m) 0%nat l.
+
+  Definition ser_list :=
+    fix go (l : list sval) (ws : list (list N)) : Prop :=
+      match l, ws with
+      | [], [] => True
+      | x :: l', w1 :: ws' => ser x w1 /\ go l' ws'
+      | _, _ => False
+      end.
+  Definition ser_pairs :=
+    fix go (l : list (sval * sval)) (ws : list (list N)) : Prop :=
+      match l, ws with
+      | [], [] => True
+      | kv :: l', w1 :: ws' => (exists wk wv, ser (fst kv) wk /\ ser (snd kv) wv /\ w1 = wk ++ wv) /\ go l' ws'
+      | _, _ => False
+      end.
+  Definition sup_list := fix go (l : list sval) : Prop := match l with [] => True | x :: r => lib_supports D x /\ go r end.
+  Definition sup_pairs :=
+    fix go (l : list (sval * sval)) : Prop :=
+      match l with
+      | [] => True
+      | kv :: r => lib_supports D (fst kv) /\ hashable_s (fst kv) = true /\ lib_supports D (snd kv) /\ go r
+      end.
+  Definition agrees_list :=
+    fix go (l : list sval) (l' : list item) {struct l} : Prop :=
+      match l, l' with
+      | [], [] => True
+      | x :: r, x' :: r' => agrees D x' x /\ go r r'
+      | _, _ => False
+      end.
+  Definition agrees_pairs :=
+    fix go (l : list (sval * sval)) (l' : list (item * item)) {struct l} : Prop :=
+      match l, l' with
+      | [], [] => True
+      | kv :: r, kv' :: r' =>
+          (exists k0, agrees D k0 (fst kv) /\ fst kv' = key_fix k0) /\ agrees D (snd kv') (snd kv) /\ go r r'
+      | _, _ => False
+      end.
+
+  Lemma in_seq : forall l, Forall (in_ok D cap) l -> forall ws, ser_list l ws -> sup_list l ->
+    forall f d rest, (2 * length (concat ws) + 2 <= f)%nat -> (d + Z.of_nat (sldepth l) < maxdepth D)%Z ->
+    exists l', seqF D cap f d (slen l) (concat ws ++ rest) = Ok (l', rest) /\ agrees_list l l'.
+  Proof.
+    induction l as [|x l IH]; intros HP ws Hser Hsup f d rest Hf Hd.
+    - destruct ws; [|contradiction]. exists []. rewrite seqF_eq. split; [reflexivity|exact I].
+    - destruct ws as [|w1 ws]; [contradiction|]. destruct Hser as [Hx Hser]. destruct Hsup as [Sx Sl].
+      inversion HP as [|? ? Px Pl]; subst.
+      rewrite seqF_eq. unfold slen. cbn [length]. 
+      destruct (N.eqb_spec (N.of_nat (S (length l))) 0) as [E|_]; [lia|].
+      cbn [concat] in *. rewrite app_length in Hf. pose proof (ser_nonempty x w1 Hx) as Hne.
+      destruct f as [|f]; [lia|].
+      cbn [sldepth fold_right] in Hd. fold (sldepth l) in Hd.
+      rewrite <- app_assoc.
+      destruct (Px w1 Hx Sx f d (concat ws ++ rest) ltac:(lia) ltac:(lia)) as [it [E1 A1]]. rewrite E1. cbn [bind].
+      replace (N.of_nat (S (length l)) - 1) with (slen l) by (unfold slen; lia).
+      destruct (IH Pl ws Hser Sl f d rest ltac:(lia) ltac:(lia)) as [l' [E2 A2]]. rewrite E2. cbn [bind].
+      exists (it :: l'). split; [reflexivity|]. split; assumption.
+  Qed.
+
+  Lemma in_pairs : forall l, Forall (fun kv => in_ok D cap (fst kv) /\ in_ok D cap (snd kv)) l ->
+    forall ws, ser_pairs l ws -> sup_pairs l ->
+    forall f d rest, (2 * length (concat ws) + 2 <= f)%nat -> (d + Z.of_nat (spdepth l) < maxdepth D)%Z ->
+    exists l', pairsF D cap f d (slen l) (concat ws ++ rest) = Ok (l', rest) /\ agrees_pairs l l'.
+  Proof.
+    induction l as [|x l IH]; intros HP ws Hser Hsup f d rest Hf Hd.
+    - destruct ws; [|contradiction]. exists []. rewrite pairsF_eq. split; [reflexivity|exact I].
+    - destruct ws as [|w1 ws]; [contradiction|]. destruct Hser as [[wk [wv [Hk [Hv ->]]]] Hser].
+      destruct Hsup as [Sk [Sh [Sv Sl]]]. inversion HP as [|? ? [Pk Pv] Pl]; subst.
+      rewrite pairsF_eq. unfold slen. cbn [length].
+      destruct (N.eqb_spec (N.of_nat (S (length l))) 0) as [E|_]; [lia|].
+      cbn [concat] in *. rewrite !app_length in Hf.
+      pose proof (ser_nonempty _ wk Hk) as Hne1. pose proof (ser_nonempty _ wv Hv) as Hne2.
+      destruct f as [|f]; [lia|].
+      cbn [spdepth fold_right] in Hd. fold (spdepth l) in Hd.
+      rewrite <- !app_assoc.
+      destruct (Pk wk Hk Sk f d (wv ++ concat ws ++ rest) ltac:(lia) ltac:(lia)) as [ik [E1 A1]]. rewrite E1. cbn [bind].
+      destruct (Pv wv Hv Sv f d (concat ws ++ rest) ltac:(lia) ltac:(lia)) as [iv [E2 A2]]. rewrite E2. cbn [bind].
+      rewrite (agrees_hashable D ik (fst x) A1 Sh).
+      replace (N.of_nat (S (length l)) - 1) with (slen l) by (unfold slen; lia).
+      destruct (IH Pl ws Hser Sl f d rest ltac:(lia) ltac:(lia)) as [l' [E3 A3]]. rewrite E3. cbn [bind].
+      exists ((key_fix ik, iv) :: l'). split; [reflexivity|].
+      split; [exists ik; split; [assumption|reflexivity]|]. split; assumption.
+  Qed.
+
+  Lemma in_arr_head : forall n h r, arr_head n h ->
+    exists c lb w', h = c :: lb /\ classify c = DArr w' /\ rd_len bFixArrayMin c w' (lb ++ r) = Ok (n, r) /\ n < 2 ^ 32.
+  Proof.
+    intros n h r H. unfold arr_head in H. destruct H as [[Hn ->]|[[Hn ->]|[Hn ->]]]; rewrite ?sbe_be.
+    - exists (0x90 + n), [], 0%nat. repeat apply conj; [reflexivity| | |change (2 ^ 32) with 4294967296; lia].
+      + apply (fix_add 0x90 16 (DArr 0)); [vm_compute; reflexivity|lia].
+      + cbn [rd_len app]. rewrite (fix_xor 0x90 16); [reflexivity|vm_compute; reflexivity|lia].
+    - exists 0xdc, (be_put 2 n), 2%nat. repeat apply conj; [reflexivity|reflexivity| |change (2 ^ 16) with 65536 in Hn; change (2 ^ 32) with 4294967296; lia].
+      apply rd_len_be; [lia|exact Hn].
+    - exists 0xdd, (be_put 4 n), 4%nat. repeat apply conj; [reflexivity|reflexivity| |assumption].
+      apply rd_len_be; [lia|exact Hn].
+  Qed.
+
+  Lemma in_map_head : forall n h r, map_head n h ->
+    exists c lb w', h = c :: lb /\ classify c = DMap w' /\ rd_len bFixMapMin c w' (lb ++ r) = Ok (n, r) /\ n < 2 ^ 32.
+  Proof.
+    intros n h r H. unfold map_head in H. destruct H as [[Hn ->]|[[Hn ->]|[Hn ->]]]; rewrite ?sbe_be.
+    - exists (0x80 + n), [], 0%nat. repeat apply conj; [reflexivity| | |change (2 ^ 32) with 4294967296; lia].
+      + apply (fix_add 0x80 16 (DMap 0)); [vm_compute; reflexivity|lia].
+      + cbn [rd_len app]. rewrite (fix_xor 0x80 16); [reflexivity|vm_compute; reflexivity|lia].
+    - exists 0xde, (be_put 2 n), 2%nat. repeat apply conj; [reflexivity|reflexivity| |change (2 ^ 16) with 65536 in Hn; change (2 ^ 32) with 4294967296; lia].
+      apply rd_len_be; [lia|exact Hn].
+    - exists 0xdf, (be_put 4 n), 4%nat. repeat apply conj; [reflexivity|reflexivity| |assumption].
+      apply rd_len_be; [lia|exact Hn].
+  Qed.
+
+  Lemma c10_in_aux : forall s, in_ok D cap s.
+  Proof.
+    induction s using sval_ind'; unfold in_ok; intros w Hser Hsup f dp rest Hf Hd; cbn [ser] in Hser.
+    - subst w. destruct f as [|f]; [cbn in Hf; lia|]. cbn [app]. rewrite decF_S. exists INil. split; reflexivity.
+    - subst w. destruct f as [|f]; [cbn in Hf; lia|]. cbn [app]. rewrite decF_S. exists (IBool b).
+      split; [destruct b; reflexivity|reflexivity].
+    - destruct f as [|f]; [lia|]. cbn [lib_supports] in Hsup.
+      destruct (in_int D cap z w f dp rest Hser Hsup) as [it [E A]]. exists it. split; assumption.
+    - destruct Hser as [Hb ->]. destruct f as [|f]; [lia|]. rewrite sbe_be. rewrite <- app_comm_cons.
+      rewrite decF_S. unfold dec_body. change (classify 0xca) with DF32. rewrite rd_nk_put. cbn [bind].
+      rewrite be_get_put by (change (256 ^ N.of_nat 4) with (2 ^ 32); assumption).
+      eexists. split; reflexivity.
+    - destruct Hser as [Hb ->]. destruct f as [|f]; [lia|]. rewrite sbe_be. rewrite <- app_comm_cons.
+      rewrite decF_S. unfold dec_body. change (classify 0xcb) with DF64. rewrite rd_nk_put. cbn [bind].
+      rewrite be_get_put by (change (256 ^ N.of_nat 8) with (2 ^ 64); assumption).
+      eexists. split; reflexivity.
+    - destruct f as [|f]; [lia|]. rewrite (in_str D cap Hcap s w f dp rest Hser). eexists. split; reflexivity.
+    - destruct f as [|f]; [lia|]. rewrite (in_bin D cap Hcap s w f dp rest Hser). eexists. split; reflexivity.
+    - (* array *)
+      destruct Hser as [h [ws [Hh [-> Hl]]]].
+      destruct (in_arr_head (slen l) h (concat ws ++ rest) Hh) as [c [lb [w' [-> [Hc [Hrd Hn]]]]]].
+      rewrite app_length in Hf. cbn [length] in Hf. destruct f as [|f]; [lia|].
+      rewrite <- app_assoc. rewrite <- app_comm_cons. rewrite decF_S. unfold dec_body. rewrite Hc, Hrd. cbn [bind].
+      cbn [sdepth] in Hd. fold (sldepth l) in Hd.
+      unfold depth_incr. destruct (Z.leb_spec (maxdepth D) (dp + 1)) as [Hle|Hgt]; [lia|]. cbn [bind].
+      destruct (in_seq l H ws Hl Hsup f (dp + 1)%Z rest ltac:(lia) ltac:(lia)) as [l' [E A]].
+      rewrite E. cbn [bind]. exists (IArr l'). split; [reflexivity|]. cbn [agrees]. exists l'. split; [reflexivity|exact A].
+    - (* map *)
+      destruct Hser as [h [ws [Hh [-> Hl]]]].
+      destruct (in_map_head (slen l) h (concat ws ++ rest) Hh) as [c [lb [w' [-> [Hc [Hrd Hn]]]]]].
+      rewrite app_length in Hf. cbn [length] in Hf. destruct f as [|f]; [lia|].
+      rewrite <- app_assoc. rewrite <- app_comm_cons. rewrite decF_S. unfold dec_body. rewrite Hc, Hrd. cbn [bind].
+      cbn [sdepth] in Hd. fold (spdepth l) in Hd.
+      unfold depth_incr. destruct (Z.leb_spec (maxdepth D) (dp + 1)) as [Hle|Hgt]; [lia|]. cbn [bind].
+      destruct (in_pairs l H ws Hl Hsup f (dp + 1)%Z rest ltac:(lia) ltac:(lia)) as [l' [E A]].
+      rewrite E. cbn [bind]. exists (IMap l'). split; [reflexivity|]. cbn [agrees]. exists l'. split; [reflexivity|exact A].
+    - (* ext *)
+      destruct f as [|f]; [lia|]. cbn [lib_supports] in Hsup.
+      destruct (in_ext_head D cap t d w f dp rest Hser) as [E Hl]. rewrite E.
+      unfold ser_ext in Hser. destruct Hser as [Hr _].
+      unfold ext_body. cbn [rd_n1 bind].
+      destruct (N.eqb_spec (tc 8 t) bTimeExtTagU) as [Et|_]; [exfalso; apply (tc8_range t Hr Hsup); exact Et|].
+      rewrite rd_readx_app by (unfold goslice in Hcap; change (2 ^ 32) with 4294967296 in Hl; lia).
+      eexists. split; reflexivity.
+    - (* timestamp *)
+      destruct f as [|f]; [lia|]. rewrite (in_time D cap s n w f dp rest Hser). eexists. split; reflexivity.
+  Qed.
+End InMain.
+
+(* C10 in: every serialisation the specification permits for a value the library supports,
+   followed by anything, is decoded into an item carrying that value's data, and exactly the
+   serialisation is consumed *)
+Lemma c10_in : forall D s w rest,
+  ser s w -> lib_supports D s -> (Z.of_nat (sdepth s) < maxdepth D)%Z ->
+  goslice (len (w ++ rest)) ->
+  exists it, dec_naked D (dec_fuel (w ++ rest)) (w ++ rest) = Ok (it, rest) /\ agrees D it s.
+Proof.
+  intros D s w rest Hser Hsup Hd Hc. unfold dec_naked.
+  apply (c10_in_aux D _ Hc s w Hser Hsup).
+  - unfold dec_fuel. rewrite app_length. lia.
+  - lia.
+Qed.
+
+(* the guard on SignedInteger is needed: the known finding F07-1n *)
+Lemma c10_in_signed_refuted :
+  exists D s w, ser s w /\ (Z.of_nat (sdepth s) < maxdepth D)%Z /\
+    forall it, dec_naked D (dec_fuel w) w = Ok (it, []) -> ~ agrees D it s.
+Proof.
+  exists (mkdopts false false true 0), (SInt 18446744073709551615), [0xcf; 255; 255; 255; 255; 255; 255; 255; 255].
+  split.
+  - cbn [ser]. unfold ser_int. do 5 right. left. split; [split; [lia|reflexivity]|reflexivity].
+  - split; [vm_compute; reflexivity|].
+    intros it H. vm_compute in H. apply Ok_inj in H. apply pair_inj in H. destruct H as [<- _].
+    cbn [agrees]. intros [A|[_ A]]; discriminate.
+Qed.
